@@ -7,7 +7,7 @@ Spec for C08, written from the property text and LaTeX's own rules (latex.ltx, c
   change that one counter only;
 * the standard representations: roman numerals by the additive/subtractive digit table, `\alph`/`\Alph` by position;
 * `\the…` of the standard classes (book: `\thesection = \thechapter.\arabic{section}`, figures/tables/equations
-  prefixed by the chapter (figures/tables only when the chapter number is positive); article: `\thesection =
+  prefixed by the chapter only when the chapter number is positive; article: `\thesection =
   \arabic{section}`, plain equation/figure/table numbers; after `\appendix` the top unit prints `\Alph`);
 * which object prints a number: not the starred forms, not sectioning deeper than `secnumdepth`, not `eqnarray`
   rows with `\nonumber`; enumerate items count 1, 2, 3 … within their list and `\item[label]` does not count;
@@ -114,6 +114,8 @@ def listSafe : Ev → Bool
   | .setc n _ | .addc n _ | .stepc n => !(enumNames.contains n)
   | .newtheorem name shared _ _ => !(enumNames.contains name) && !(enumNames.contains (shared.getD ""))
   | .appendix c => !(enumNames.contains c)
+  | .renewThe c _ => !(enumNames.contains c)
+  | .setcv n _ | .addcv n _ | .initc n _ => !(enumNames.contains n)
   | _ => true
 
 /-- LaTeX's rule for the stack of item counts: `\begin{list}` opens a list with count 0 (at most four deep),
@@ -159,6 +161,10 @@ def targets (st : St) : Ev → List String
   | .beginList | .endList | .item _ _ => enumNames
   | .eqnBegin | .eqRow | .nonumber => ["equation"]
   | .appendix c => [c]
+  | .show _ c => [c]            -- reading a missing counter creates it
+  | .showThe _ | .renewThe _ _ => []
+  | .setcv n m | .addcv n m => [n, m]
+  | .initc n _ => [n]
 
 /-- the event does not touch any counter of `A` -/
 def avoids (A : List String) (st : St) (e : Ev) : Bool := (targets st e).all fun t => !(A.contains t)
@@ -190,6 +196,11 @@ inductive Subst (env : TheEnv) (s : Store) : Name → List Piece → List String
   | nested {self n : Name} {f : Option String} {d : TheDef} {parts : List String} {ps : List Piece} {rs : List String} :
       isMacroRef self n = true → env.lookup n = some d → Subst env s n d.pieces parts →
       Subst env s self ps rs → Subst env s self (.ref n f :: ps) (finish d parts :: rs)
+  | call {self n : Name} {fm : String} {r : String} {ps : List Piece} {rs : List String} :
+      represent (valD s n) fm = .ok r → Subst env s self ps rs → Subst env s self (.call fm n :: ps) (r :: rs)
+  | macro {self n : Name} {d : TheDef} {parts : List String} {ps : List Piece} {rs : List String} :
+      env.lookup n = some d → Subst env s n d.pieces parts →
+      Subst env s self ps rs → Subst env s self (.macro n :: ps) (finish d parts :: rs)
 
 /-- what `\the…` (the macro `m`) prints -/
 def Denotes (env : TheEnv) (s : Store) (m : Name) (r : String) : Prop :=
@@ -201,13 +212,45 @@ def macroRankedB (env : TheEnv) (rank : Name → Nat) : Bool :=
   env.all fun e => e.2.pieces.all fun p =>
     match p with
     | .ref n _ => !(isMacroRef e.1 n) || decide (rank n < rank e.1)
+    | .macro n => decide (rank n < rank e.1)
     | .lit _ => true
+    | .call _ _ => true
 
 /-- a rank for the `\the…` macros of the standard classes: `\thechapter` < `\thesection` < … ; everything else
     (equation, figure, table, list and user counters, which refer at most to these) above them -/
 def stdRank (m : Name) : Nat :=
   ["thechapter", "thesection", "thesubsection", "thesubsubsection", "theparagraph", "thesubparagraph",
    "thesubsubparagraph"].idxOf m
+
+/-! ## the format mini-language: grammar and rendering -/
+
+/-- a format as its author means it: literal text and references `${name}` / `${name.representation}` -/
+inductive FItem where
+  | text (s : List Char)
+  | ref (name : List Char) (fmt : Option (List Char))
+  deriving DecidableEq, Repr
+
+def renderItem : FItem → List Char
+  | .text s => s
+  | .ref n none => '$' :: '{' :: (n ++ ['}'])
+  | .ref n (some f) => '$' :: '{' :: (n ++ '.' :: (f ++ ['}']))
+
+/-- the format string that spells the items -/
+def renderFormat (items : List FItem) : List Char := items.flatMap renderItem
+
+def wordB (w : List Char) : Bool := !w.isEmpty && w.all isWord
+
+/-- well-formed items: names and representations are non-empty words, literal text is non-empty, contains no `$`,
+    and two literal texts are not adjacent (they would be one) -/
+def wfItems : List FItem → Bool
+  | [] => true
+  | .text s :: rest =>
+    !s.isEmpty && s.all (· != '$') && (match rest with | .text _ :: _ => false | _ => true) && wfItems rest
+  | .ref n fm :: rest => wordB n && (match fm with | none => true | some f => wordB f) && wfItems rest
+
+def FItem.toPiece : FItem → Piece
+  | .text s => .lit (String.ofList s)
+  | .ref n fm => .ref (String.ofList n) (fm.map String.ofList)
 
 /-! ## executable oracle for `\the…` formats (used by the `fmt` stream and the failing-input search) -/
 
@@ -245,7 +288,9 @@ def substEval : Nat → TheEnv → Store → Name → Option String
         match p with
         | Piece.lit t => some t
         | Piece.ref n fm =>
-          if isMacroRef self n then substEval f env s n else stdRepresent (valD s n) (fm.getD "arabic")).map fun parts =>
+          if isMacroRef self n then substEval f env s n else stdRepresent (valD s n) (fm.getD "arabic")
+        | Piece.call fm n => stdRepresent (valD s n) fm
+        | Piece.macro n => substEval f env s n).map fun parts =>
         let t := String.join parts
         if d.trimLeft then stripZeroGroups t else t
 
@@ -273,6 +318,8 @@ structure LState where
   secnumdepth : Int
   /-- item counts of the open lists, innermost first -/
   lists : List Nat
+  /-- `\the…` macros the document redefined with `\renewcommand`: counter ↦ body -/
+  userThe : List (String × List Piece) := []
   outs : List Out
   deriving Repr
 
@@ -306,22 +353,33 @@ def printParent (S : LState) (c : String) : Option String :=
     | "paragraph" => some "subsubsection"
     | "subparagraph" => some "paragraph"
     | "section" => if S.cls = .book then some "chapter" else none
-    | "equation" => if S.cls = .book then some "chapter" else none
-    | "figure" | "table" => if S.cls = .book ∧ getV S "chapter" > 0 then some "chapter" else none
+    -- book.cls: `\theequation`, `\thefigure`, `\thetable` = `\ifnum\c@chapter>\z@ \thechapter.\fi \@arabic\c@…`
+    | "equation" | "figure" | "table" => if S.cls = .book ∧ getV S "chapter" > 0 then some "chapter" else none
     | _ => none
 
 def appendixUnit (S : LState) : String := if S.cls = .book then "chapter" else "section"
 
-/-- `\the c` -/
-def theL (S : LState) : Nat → String → String
-  | 0, _ => ""
+/-- `\the c`: a user redefinition if there is one (literal text, `\arabic{..}`-style calls with the standard
+    representations, other `\the…` macros), else the class's own definition; `none` when a value is outside the range
+    of its representation -/
+def theL (S : LState) : Nat → String → Option String
+  | 0, _ => none
   | f + 1, c =>
-    let own := if S.appendix ∧ c = appendixUnit S then alphUpper (getV S c).toNat
-      else if c = "part" then roman (getV S c).toNat      -- `\thepart = \Roman{part}` in book, report and article
-      else toString (getV S c)
-    match printParent S c with
-    | none => own
-    | some p => theL S f p ++ "." ++ own
+    match S.userThe.lookup c with
+    | some body =>
+      (body.mapM fun (p : Piece) =>
+        match p with
+        | Piece.lit t => some t
+        | Piece.call fm n => stdRepresent (getV S n) fm
+        | Piece.macro m => theL S f (m.drop 3).toString
+        | Piece.ref _ _ => none).map String.join
+    | none =>
+      let own := if S.appendix ∧ c = appendixUnit S then alphUpper (getV S c).toNat
+        else if c = "part" then roman (getV S c).toNat      -- `\thepart = \Roman{part}` in book, report and article
+        else toString (getV S c)
+      match printParent S c with
+      | none => some own
+      | some p => (theL S f p).map fun pre => pre ++ "." ++ own
 
 def emit (S : LState) (tag : String) (r : Option String) : LState := { S with outs := ⟨tag, r⟩ :: S.outs }
 
@@ -329,7 +387,7 @@ def emit (S : LState) (tag : String) (r : Option String) : LState := { S with ou
 def lnumbered (S : LState) (tag c : String) : Option LState :=
   if hasC S c then
     let S1 := lstepc S c
-    some (emit S1 tag (some (theL S1 (S1.vals.length + 2) c)))
+    (theL S1 (S1.vals.length + S1.userThe.length + 2) c).map fun r => emit S1 tag (some r)
   else none
 
 /-- one event under LaTeX's rules; `none` = outside the property's domain (LaTeX itself reports an error) -/
@@ -385,8 +443,18 @@ def lstep (S : LState) : Ev → Option LState
     if ctr = appendixUnit S then
       let S1 := setV S ctr 0
       let S2 := if S.cls = .book then setV S1 "section" 0 else setV S1 "subsection" 0
-      some { S2 with appendix := true }
+      -- `\appendix` redefines `\the<unit>` (`\gdef\thechapter{\@Alph\c@chapter}`): a user definition is replaced
+      some { S2 with appendix := true, userThe := S2.userThe.filter fun e => e.1 != ctr }
     else none
+  | .show fmt c =>
+    if hasC S c then (stdRepresent (getV S c) fmt).map fun r => emit S "show" (some r) else none
+  | .showThe c =>
+    if hasC S c then (theL S (S.vals.length + S.userThe.length + 2) c).map fun r => emit S "show" (some r) else none
+  | .renewThe c body => if hasC S c then some { S with userThe := (c, body) :: S.userThe } else none
+  | .setcv n m => if hasC S n ∧ hasC S m then some (setV S n (getV S m)) else none
+  | .addcv n m => if hasC S n ∧ hasC S m then some (setV S n (getV S n + getV S m)) else none
+  -- plasTeX's `--counter n v` option: "initial value v" = the first object of `n` is numbered `v`
+  | .initc n v => if hasC S n then some (setV S n (v - 1)) else none
 
 /-- the counters of the standard classes and what each is reset by (classes.dtx) -/
 def stdCounters : Cls → List (String × Option String)
